@@ -101,6 +101,11 @@ func (it *Interp) doCall(g *G, fr *Frame, ins ssa.Instruction, c *ssa.CallCommon
 		fr.pc++
 		return stOK
 	}
+	if mode == callNormal && it.cfg.Summaries[fv.fn.String()] {
+		// pure display helper summarised by an opaque result; its own paths are checked in isolation
+		it.intrHit["summary "+fv.fn.String()]++
+		return it.afterIntrinsic(g, fr, site, it.opaqueResult(fv.fn.Signature.Results()), stOK)
+	}
 	if mode == callNormal {
 		if res, ok := it.preCall(g, fv.fn, args); ok {
 			it.intrHit["abstract "+fv.fn.String()]++
@@ -529,4 +534,83 @@ func describeValue(v Value) string {
 		return x.typ.String() + "(" + describeValue(x.val) + ")"
 	}
 	return fmt.Sprintf("%T", v)
+}
+
+func (it *Interp) opaqueResult(rs *types.Tuple) Value {
+	one := func(t types.Type) Value {
+		if isString(t) {
+			return concStr("‹summary›")
+		}
+		it.unsupported("summarised function with non-string result %s", t)
+		return nil
+	}
+	switch rs.Len() {
+	case 0:
+		return nil
+	case 1:
+		return one(rs.At(0).Type())
+	}
+	tu := make(Tuple, rs.Len())
+	for i := range tu {
+		tu[i] = one(rs.At(i).Type())
+	}
+	return tu
+}
+
+// checkPure verifies syntactically that fn has no side effects (so that replacing
+// a call by an opaque result cannot hide a state change).
+func checkPure(fn *ssa.Function, allowed map[string]bool) error {
+	if fn.Blocks == nil {
+		return fmt.Errorf("%s has no body", fn)
+	}
+	local := map[ssa.Value]bool{}
+	for _, b := range fn.Blocks {
+		for _, ins := range b.Instrs {
+			if a, ok := ins.(*ssa.Alloc); ok {
+				local[a] = true
+			}
+		}
+	}
+	for _, b := range fn.Blocks {
+		for _, ins := range b.Instrs {
+			switch x := ins.(type) {
+			case *ssa.Store:
+				root := x.Addr
+				for {
+					switch a := root.(type) {
+					case *ssa.FieldAddr:
+						root = a.X
+						continue
+					case *ssa.IndexAddr:
+						root = a.X
+						continue
+					}
+					break
+				}
+				if !local[root] {
+					return fmt.Errorf("%s stores through non-local address", fn)
+				}
+			case *ssa.MapUpdate, *ssa.Send, *ssa.Go, *ssa.Defer, *ssa.Select, *ssa.Panic:
+				return fmt.Errorf("%s contains %T", fn, ins)
+			case *ssa.Call:
+				if x.Call.IsInvoke() {
+					return fmt.Errorf("%s makes a dynamic call", fn)
+				}
+				switch c := x.Call.Value.(type) {
+				case *ssa.Builtin:
+					if c.Name() != "len" && c.Name() != "cap" {
+						return fmt.Errorf("%s calls builtin %s", fn, c.Name())
+					}
+				case *ssa.Function:
+					n := c.String()
+					if !allowed[n] && n != "fmt.Sprintf" && n != "fmt.Sprint" {
+						return fmt.Errorf("%s calls %s", fn, n)
+					}
+				default:
+					return fmt.Errorf("%s calls a function value", fn)
+				}
+			}
+		}
+	}
+	return nil
 }
